@@ -23,6 +23,7 @@ class PathClient(Client):
         self.f = func
         self.violations = []     # (node, construct, message, state)
         self.n_events = 0
+        self.rebound = func.rebound_by_nested() if hasattr(func, 'rebound_by_nested') else set()
 
     # ------------------------------------------------------------- override
     def on_call(self, it, s, call):
@@ -112,7 +113,12 @@ class PathClient(Client):
                 for st in states:
                     nxt += self._effects(it, st, e) if not self.is_pure(e) else [st]
                 states = nxt
-            return [self.on_call(it, st, expr) for st in states]
+            out = []
+            for st in states:
+                for name in self.rebound:
+                    st = self.kill(st, name)
+                out.append(self.on_call(it, st, expr))
+            return out
         for c in ast.iter_child_nodes(expr):
             if isinstance(c, ast.expr):
                 nxt = []
@@ -123,6 +129,8 @@ class PathClient(Client):
 
     def call(self, it, s, call):
         self.n_events += 1
+        for name in self.rebound:
+            s = self.kill(s, name)          # the callee may be (or call) a nested function that re-binds it
         return [self.on_call(it, s, call)]
 
     def assign(self, it, s, target, value, stmt):
